@@ -104,7 +104,7 @@ def build(shape, b: R.Builder):
             nin = n
         cur, size = b.scatter("/B0", lst)
         for s in range(m):
-            cur = b.exec_step(f"/B{s}", {"x": cur})
+            cur = b.exec_step(f"/B{s}", {"x": cur}, transfer=not shape.get("direct"))
         gathered = b.gather("/B0", cur, size)
         out = b.exec_step("/C", {"x": gathered})
         return p_in, nin, out
